@@ -320,8 +320,9 @@ def make_sim(root, simname, restarts=2, ghosts=1):
                         ds.attrs['cctk_nghostzones'] = np.array([ghosts] * 3, dtype=np.int32)
                         ds.attrs['iorigin'] = np.array([0, 0, 0], dtype=np.int32)
                         ds.attrs['time'] = 0.5 * it
-        with open(os.path.join(d, 'checkpoint.chkpt.it_%d.h5' % (4 * r)), 'wb') as f:
-            f.write(b'')
+        if r != 1:            # restart 1 has 3D data but no checkpoint file
+            with open(os.path.join(d, 'checkpoint.chkpt.it_%d.h5' % (4 * r)), 'wb') as f:
+                f.write(b'')
 
 
 def replay_dispatch(line, tname):
@@ -399,7 +400,7 @@ def round_trips(report, tier):
             for r, (lo, hi) in want.items():
                 got = mem.get(r, {})
                 if [int(x) for x in got.get('its available', [])] != [lo, hi] or [int(x) for x in got.get('rl = 1', [])] != [lo, hi, 2] \
-                        or got.get('checkpoints') != [4 * r] or sorted(got.get('var available', [])) != ['alpha', 'rho0']:
+                        or got.get('checkpoints') != ([4 * r] if r != 1 else []) or sorted(got.get('var available', [])) != ['alpha', 'rho0']:
                     bad.append((simname, f'restart {r} catalogued as {got}'))
             if {k: sorted(v) for k, v in cont.items()} != {k: sorted(v) for k, v in cont2.items()} or sorted(cont) != [('alp',), ('rho',)]:
                 bad.append((simname, f'content catalogue unstable or wrong: {sorted(cont)}'))
